@@ -40,6 +40,9 @@ void HARNESS(void)
   E* base = malloc(K * (LMAX + 1) * sizeof(E)); E* out = malloc((TOTALMAX + 1) * sizeof(E)); Seq* seqs = malloc(K * sizeof(Seq));
   __CPROVER_assume(base != 0 && out != 0 && seqs != 0);
   uint64_t total = 0;
+#ifdef FIX_LENS      /* one job per tuple of lengths (digits of FIX_LENS in base 10, sequence 0 first) */
+  { unsigned code_ = FIX_LENS; for (unsigned i = 0; i < K; i++) { in_len[K - 1 - i] = code_ % 10; code_ /= 10; } }
+#endif
   for (unsigned i = 0; i < K; i++) {
     __CPROVER_assume(in_len[i] <= LMAX);
 #ifdef NONEMPTY
